@@ -31,10 +31,10 @@ Lemma vof_to c z : vto_Z c = Some z -> c = VInt z.
 Proof. destruct c; cbn; intros H; try discriminate. congruence. Qed.
 
 (* ---- the theorems of IndexBijMain at val ---- *)
-Definition v_index_refines := M_index_refines val val_eqb vto_Z val_eqb_spec.
-Definition v_index_accepts_iff := M_index_accepts_iff val val_eqb val_eqb_spec.
-Definition v_index_bijection := M_index_bijection val val_eqb vto_Z val_eqb_spec.
-Definition v_list_refines := M_list_refines val val_eqb vto_Z val_eqb_spec.
-Definition v_slice_refines := M_slice_refines val val_eqb val_eqb_spec.
+Definition v_index_refines := M_index_refines val val_eqb VInt vto_Z val_eqb_spec vto_of vof_to.
+Definition v_index_accepts_iff := M_index_accepts_iff val val_eqb VInt vto_Z val_eqb_spec vto_of vof_to.
+Definition v_index_bijection := M_index_bijection val val_eqb VInt vto_Z val_eqb_spec vto_of vof_to.
+Definition v_list_refines := M_list_refines val val_eqb VInt vto_Z val_eqb_spec vto_of vof_to.
+Definition v_slice_refines := M_slice_refines val val_eqb VInt vto_Z val_eqb_spec vto_of vof_to.
 Definition v_auto_refines := M_auto_refines val val_eqb VInt vto_Z val_eqb_spec vto_of vof_to.
-Definition v_auto_bijection := M_auto_bijection val val_eqb VInt vto_Z val_eqb_spec vto_of.
+Definition v_auto_bijection := M_auto_bijection val val_eqb VInt vto_Z val_eqb_spec vto_of vof_to.
